@@ -32,6 +32,7 @@ func runFrame(c *core.Ctx) []core.Obligation {
 	fn := c.Lookup("json.(*Decoder).readValue")
 	if fn == nil {
 		b.und("anchor", "-", "json.(*Decoder).readValue not found")
+		frameSkipCount(c, b)
 		return b.out
 	}
 	parseValue := c.Lookup("json.(decoder).parseValue")
@@ -331,6 +332,7 @@ func runFrame(c *core.Ctx) []core.Obligation {
 			b.und("offset-monotone", c.FuncPos(fn), "no store to Decoder.inputOffset found")
 		}
 	}
+	frameSkipCount(c, b)
 	return b.out
 }
 
@@ -437,4 +439,41 @@ func countLike(v ssa.Value) bool {
 		}
 	}
 	return false
+}
+
+func frameSkipCount(c *core.Ctx, b *ob) {
+	// skipSpacesN's count is what Decoder.InputOffset is built from: on every return it is the
+	// number of bytes skipped (the start of the returned remainder, or the whole input)
+	if fn := c.Lookup("json.skipSpacesN"); fn != nil {
+		bp := bufParam(fn)
+		n, bad := 0, ""
+		for _, r := range returnsOf(fn) {
+			if len(r.Results) != 2 {
+				continue
+			}
+			n++
+			cnt := r.Results[1]
+			if sl, ok := r.Results[0].(*ssa.Slice); ok && sl.X == ssa.Value(bp) && sl.Low != nil {
+				if stripConv(sl.Low) != stripConv(cnt) {
+					bad = c.InstrPos(r)
+				}
+				continue
+			}
+			// nothing left: everything was skipped
+			if la, ok := lenArg(cnt); !ok || la != ssa.Value(bp) {
+				bad = c.InstrPos(r)
+			}
+		}
+		key := "frame:skip-count"
+		switch {
+		case n == 0:
+			b.addP([]string{"C11"}, core.Undecided, key, c.FuncPos(fn), "no return found in skipSpacesN")
+		case bad != "":
+			b.addP([]string{"C11"}, core.Violation, key, bad, "skipSpacesN returns a count that is not the number of bytes it skipped (the offset of the returned remainder, or len(b) when only white space was left): Decoder.InputOffset, which accumulates it, falls behind the bytes actually consumed")
+		default:
+			b.addP([]string{"C11"}, core.Discharged, key, c.FuncPos(fn), fmt.Sprintf("%d returns, each reporting the number of bytes skipped", n))
+		}
+	} else {
+		b.addP([]string{"C11"}, core.Undecided, "frame:skip-count", "-", "json.skipSpacesN not found")
+	}
 }
